@@ -1,4 +1,6 @@
 """C05 — sketch of a union is the position-wise join; SetSketch merge is exact (structural clauses)."""
+import re
+
 from .. import hirq, nf, slicer
 from ..rulelib import (resolver_of, tree_of, user_nodes, writes_to_self, self_method_calls, mutating_self_calls, hir_dominates,
                        for_loops, loop_exits, def_exprs, short)
@@ -72,12 +74,19 @@ def _compares_field(d, f, other="other", neg=False, R=None):
         op = {"==": "!=", "<": ">=", "<=": ">", ">": "<=", ">=": "<"}.get(op)
     if op == "!=":
         return {nf.nf(d["l"], res=R), nf.nf(d["r"], res=R)} == {a, b}
+    def gap(s_):
+        """the magnitude of the difference of the two fields, alone or scaled by one of them: |a - b| [/ a]; the absolute value is
+        taken of the difference itself, and nothing but a scaling is applied to it (a `max` with another signed gap before the
+        `abs` would hide a negative difference)"""
+        core = [r"\(%s - %s\)\.abs\(\)" % (re.escape(x), re.escape(y)) for (x, y) in ((a, b), (b, a))]
+        scale = r"(?: / (?:%s|%s)(?:\.abs\(\))?)?" % (re.escape(a), re.escape(b))
+        return any(re.match(r"^\(?%s%s\)?$" % (c_, scale), s_) for c_ in core)
     if op in (">=", ">"):
         l = nf.nf(d["l"], res=R)
-        return a in l and b in l and ".abs()" in l and a not in nf.nf(d["r"], res=R) and b not in nf.nf(d["r"], res=R)
+        return gap(l) and a not in nf.nf(d["r"], res=R) and b not in nf.nf(d["r"], res=R)
     if op in ("<=", "<"):
         r = nf.nf(d["r"], res=R)
-        return a in r and b in r and ".abs()" in r and a not in nf.nf(d["l"], res=R) and b not in nf.nf(d["l"], res=R)
+        return gap(r) and a not in nf.nf(d["l"], res=R) and b not in nf.nf(d["l"], res=R)
     return False
 
 
